@@ -39,6 +39,12 @@ SITES = [
     dict(gen="Detect", name="annularDetectOffset", file=_DET, func="AnnularDetector._calculate_new_array", select=("kwarg", "offset", 0),
          inline={"offset": ("assign", "offset", 0)},
          params_map={"(0.0, 0.0) if self.offset is None else self.offset": "offset", "self.offset": "offset"}, params=["offset"], param_types={"offset": "Rat × Rat"}, ret="Rat × Rat", modes=["rat"]),
+    # _AbstractRadialDetector._calculate_new_array: pattern cropped to outer + margin for shifted detectors
+    dict(gen="Detect", name="offsetCropMargin", file=_DET, func="_AbstractRadialDetector._calculate_new_array", select=("assign", "margin", 1),
+         params_map={"float(np.max(np.abs(np.asarray(self._offset, dtype=float))))": "maxoff", "max(waves.angular_sampling)": "maxs"},
+         params=["maxoff", "maxs"], modes=["rat"]),
+    dict(gen="Detect", name="offsetCropAngle", file=_DET, func="_AbstractRadialDetector._calculate_new_array", select=("kwarg", "max_angle", 0),
+         params_map={"outer": "outer", "margin": "margin"}, params=["outer", "margin"], modes=["rat"]),
 ]
 FINGERPRINTS = {
     "_annular_detector_mask": (_MEA, "_annular_detector_mask"),
